@@ -4,6 +4,7 @@ package main
 
 import (
 	"fmt"
+	"regexp"
 	"go/ast"
 	"go/token"
 	"go/types"
@@ -186,7 +187,7 @@ func (c *FnCtx) fact(fact string) {
 	if fact == "true" || c.factCache[fact] {
 		return
 	}
-	if strings.Contains(fact, "?") {
+	if strings.Contains(fact, "?") && hasFreeBound(fact) {
 		// mentions a bound variable of a specification quantifier: not a global fact
 		return
 	}
@@ -350,7 +351,7 @@ func (c *FnCtx) havocHeap(st *State, key string) (old, nw string) {
 	}
 	sortOf := c.heapSort(key)
 	nargs := 2
-	if strings.HasPrefix(key, "P_") {
+	if strings.HasPrefix(key, "P_") || strings.HasPrefix(key, "G_") {
 		nargs = 1
 	}
 	if !c.declared[old] {
@@ -572,7 +573,7 @@ func (c *FnCtx) merge(states []*State) *State {
 	for _, k := range ks {
 		srt := c.heapSort(k)
 		nargs := 2
-		if strings.HasPrefix(k, "P_") {
+		if strings.HasPrefix(k, "P_") || strings.HasPrefix(k, "G_") {
 			nargs = 1
 		}
 		syms := make([]string, len(live))
@@ -628,4 +629,16 @@ func (c *FnCtx) mergeVals(hint string, live []*State, get func(*State) Val) Val 
 	}
 	v, _ := unflat(proto, terms)
 	return v
+}
+
+var boundTok = regexp.MustCompile(`[A-Za-z_][A-Za-z0-9_]*\?[0-9]+a?`)
+
+// hasFreeBound reports whether a term mentions a quantifier-bound variable outside its binder.
+func hasFreeBound(t string) bool {
+	for _, m := range boundTok.FindAllString(t, -1) {
+		if !strings.Contains(t, "(("+m+" Int)") && !strings.Contains(t, "(let (("+m+" ") {
+			return true
+		}
+	}
+	return false
 }
